@@ -198,6 +198,47 @@ def sumEdges : List Edge → List Seg
 /-- `Sum(segmentSlices...)`. -/
 def sum (ls : List (List Seg)) : List Seg := sumEdges (calcCuts ls)
 
+/-! ### `Sum`, literally
+
+The same loop written exactly as in sum.go — `result` is a slice that is appended to and whose last
+element is updated in place.  The driver runs THIS version (so the correspondence check ties the
+literal rendering to the code); `SumLemmas.sumGoEdges_eq` proves it equal to `sumEdges`/`emit`,
+which is what the theorems are stated about. -/
+
+/-- `result[len(result)-1] = f(result[len(result)-1])`. -/
+def updLast (f : Seg → Seg) : List Seg → List Seg
+  | [] => []
+  | [s] => [f s]
+  | s :: t => s :: updLast f t
+
+/-- `result[len(result)-1].Magnitude` (the slice is never empty where the code reads this). -/
+def lastMagOf (result : List Seg) : Int :=
+  match result.getLast? with
+  | some last => last.mag
+  | none => 0
+
+/-- The trimming after the loop: drop the last element if it has no length and magnitude `<= 0`. -/
+def trimLast (result : List Seg) : List Seg :=
+  match result.getLast? with
+  | some last => if last.len = none ∧ last.mag ≤ 0 then result.dropLast else result
+  | none => result
+
+/-- One iteration of `for _, cut := range cuts` on the state `(result, lastTime)`. -/
+def sumGoStep (st : List Seg × Int) (c : Edge) : List Seg × Int :=
+  let length := c.time - st.2
+  let result := if st.1.length = 0 then st.1 ++ [⟨0, none⟩] else st.1
+  if length = 0 then
+    (updLast (fun s => ⟨s.mag + c.delta, s.len⟩) result, st.2)
+  else
+    let lastMag := lastMagOf result
+    (updLast (fun s => ⟨s.mag, some length⟩) result ++ [⟨lastMag + c.delta, none⟩], c.time)
+
+/-- The whole of `Sum` after `calcCuts`: the loop, then the trimming of the last element. -/
+def sumGoEdges (cuts : List Edge) : List Seg :=
+  trimLast (cuts.foldl sumGoStep ([], 0)).1
+
+def sumGo (ls : List (List Seg)) : List Seg := sumGoEdges (calcCuts ls)
+
 /-! ## Specification: a segment list as a step function of time -/
 
 /-- The magnitude at time `t` (ns after the start of the list): `0` before the start; the first
